@@ -62,6 +62,7 @@ def run(ck: Checker, prog: Program, tier: str):
     ck.guard(_check_npts_rule, ck, prog)
     ck.guard(_read_single, ck, prog)
     ck.guard(_obspy_wrapper, ck, prog)
+    ck.guard(_per_file_state, ck, prog)
     ck.guard(_read, ck, prog)
     ck.guard(_regex, ck, prog)
 
@@ -953,6 +954,32 @@ def _argument_purity(ck: Checker, prog: Program):
             ck.violation("C07.R4", func, text, f"{f.qualname} modifies its argument `{pname}`: {describe_effect(es[0])} - the next reader tried by read_single "
                          f"(and the caller) see the changed object", loc=es[0].chain[0].loc, path=chain_text(es[0]))
     ck.floor("C07.R4", n, 8, "readers checked for argument purity")
+
+
+def _per_file_state(ck: Checker, prog: Program):
+    """How a file is read does not depend on the files read before it: nothing but the collected traces is carried from one pass
+    of a per-file loop to the next (names bound only by `except ... as e` are not state)."""
+    from ..dataflow import loop_carried
+    n = 0
+    for name in READERS + ["read"]:
+        f = prog.func(f"data_wrangler.{name}")
+        for lp in [x for x in f.node.body if isinstance(x, ast.For)]:
+            its = {x.id for x in ast.walk(lp.iter) if isinstance(x, ast.Name)}
+            if "fnames" not in its:
+                continue
+            n += 1
+            exc_names = {h.name for x in ast.walk(lp) if isinstance(x, ast.Try) for h in x.handlers if h.name}
+            plain_stores = {x.id for x in ast.walk(lp) if isinstance(x, ast.Name) and isinstance(x.ctx, ast.Store)}
+            carried = [(nm, use, d) for nm, use, d in loop_carried(f, lp) if not (nm in exc_names and not any(
+                isinstance(st, (ast.Assign, ast.AugAssign)) and any(isinstance(t, ast.Name) and t.id == nm for t in (st.targets if isinstance(st, ast.Assign) else [st.target]))
+                for st in ast.walk(lp)))]
+            if not carried:
+                ck.ok("C07.R1", f.qualname, f"nothing is carried from one file to the next ({norm_key(lp, 50)})", nontrivial=False)
+            for nm, use, d in carried:
+                ck.violation("C07.R1", f.qualname, f"{nm} carried between files",
+                             f"`{nm}` (set by `{norm_key(d, 60)}`) is read when the next file is handled: how a file is read depends on the files before it "
+                             f"(their order, their byte order)", loc=f.loc(d))
+    ck.floor("C07.R1", n, 3, "per-file loops of the readers")
 
 
 def _obspy_wrapper(ck: Checker, prog: Program):
